@@ -9,11 +9,14 @@ package main
 func init() { props["C03"] = checkC03 }
 
 func checkC03(c *Ctx) {
-	c.Assume("Coverage of every letter, digit and non-ASCII byte by exactly one leaf is a sum over data-dependent span endpoints and is not decided. Decided: six mechanisms that, when wrong, duplicate or drop text — carried-over blocks whose children are not all re-based (a leaf keeps the offsets of the previous buffer), a text run that is taken to end at the end of the root block, the line cursor left behind after a construct that ends on a later line (the rest of that line is tokenised twice), a reader window taken after the line cursor moved (a run collected as one piece, container prefixes included), the remainder of a paragraph after its reference definitions not starting where the definition ended, and Unicode white space stripped from a heading's content range (non-ASCII bytes covered by no leaf).")
+	c.Assume("Coverage of every letter, digit and non-ASCII byte by exactly one leaf is a sum over data-dependent span endpoints and is not decided. Decided: six mechanisms that, when wrong, duplicate or drop text — carried-over blocks whose children are not all re-based (a leaf keeps the offsets of the previous buffer), a text run that is taken to end at the end of the root block, the line cursor left behind after a construct that ends on a later line (the rest of that line is tokenised twice), a reader window taken after the line cursor moved (a run collected as one piece, container prefixes included), the remainder of a paragraph after its reference definitions not starting where the definition ended, Unicode white space stripped from a heading's content range (non-ASCII bytes covered by no leaf), and a recogniser's scan of a span that skips the span's first byte (the heading \"# b##\" lost its b).")
 	ruleRebase(c)
 	ruleSpanLen(c)
 	ruleResync(c)
+	ruleResyncNotFound(c)
+	ruleTextResume(c)
 	ruleReaderWindow(c, "C03")
 	ruleParaRestStart(c)
 	ruleWSSpecRecognisers(c)
+	ruleSpanScan(c)
 }
